@@ -104,6 +104,7 @@ def spec_env(rep, ref, i):
         'live_clock': int(i.get('E', 0)) >= 0 and int(i.get('B', 0)) >= 0 and int(i.get('W', 0)) >= 0
         and int(i.get('F', 0)) == int(i.get('E', 0)) - 10**6 * int(i.get('B', 0)) and int(i.get('F', 0)) >= 0,
         'Lof': lambda tc: rep.get_segment_index(tc)[2] // R if R > 0 else 0,
+        'Mof': lambda tc: rep.get_segment_index(tc)[0],
         'micros': lambda td: td // one_us, 'zmax': max, 'zmin': min,
     }
 
